@@ -103,6 +103,7 @@ type moCtx struct {
 	why    string
 	slices map[types.Object]bool // slices the body appends the key/value to (must be sorted after)
 	cnts   map[types.Object]bool // counters used as slice index
+	body   *ast.BlockStmt        // the loop body
 }
 
 func (m *moCtx) fail(format string, a ...interface{}) bool {
@@ -383,6 +384,10 @@ func (m *moCtx) stmt(s ast.Stmt) bool {
 				if t.Name == "_" {
 					continue
 				}
+				// a local of the iteration (declared inside the loop body) does not survive it
+				if o := m.info.Uses[t]; o != nil && m.body != nil && m.body.Pos() <= o.Pos() && o.Pos() < m.body.End() {
+					continue
+				}
 				// plain variable assigned inside the loop: order-dependent unless the value is constant
 				if len(x.Rhs) == 1 {
 					if tv := m.info.Types[x.Rhs[0]]; tv.Value != nil {
@@ -435,6 +440,20 @@ func (m *moCtx) stmt(s ast.Stmt) bool {
 		return m.stmts(x.List)
 	case *ast.EmptyStmt:
 		return true
+	case *ast.DeclStmt:
+		// var x T [= pure]: a local of the iteration
+		if gd, ok := x.Decl.(*ast.GenDecl); ok && (gd.Tok == token.VAR || gd.Tok == token.CONST || gd.Tok == token.TYPE) {
+			for _, sp := range gd.Specs {
+				if vs, ok := sp.(*ast.ValueSpec); ok {
+					for _, v := range vs.Values {
+						if !m.pureExpr(v) {
+							return false
+						}
+					}
+				}
+			}
+			return true
+		}
 	}
 	return m.fail("%T statement in the loop body", s)
 }
@@ -539,7 +558,7 @@ func (e *Env) RMapOrder(filter func(mapRange) bool) {
 		}
 		n++
 		info := mr.pkg.TypesInfo
-		m := &moCtx{e: e, info: info, fd: mr.fd, slices: map[types.Object]bool{}, cnts: map[types.Object]bool{}}
+		m := &moCtx{e: e, info: info, fd: mr.fd, slices: map[types.Object]bool{}, cnts: map[types.Object]bool{}, body: mr.rs.Body}
 		if id, ok := mr.rs.Key.(*ast.Ident); ok && id.Name != "_" {
 			m.key = info.Defs[id]
 		}
